@@ -171,9 +171,7 @@ def run_path(h, cfg):
         if hasattr(r, 'durations'):
             r2.replay_from = r
         log0 = list(symx.ENG.log)
-        r2.stub = ReplayStub([e for e in log0 if e[0] in DRAWS])
-        from vlib.stubs import install_sim, NPProxy
-        install_sim(r2.stub, NPProxy())
+        r2.stub = install_replay([e for e in log0 if e[0] in DRAWS])
         ret2 = simruns.call_entry(h, r2, 'no-exception')
         if ret2 is not None:
             a = simruns.result_struct(o, r.nodes)
@@ -223,6 +221,27 @@ class DrawMismatch(Exception):
     pass
 
 
+def install_replay(recorded):
+    """install a replaying random source covering random, numpy.random.binomial and the truncated-exponential stub"""
+    import EoN.simulation as sim
+    from vlib.stubs import install_sim, NPProxy
+    stub = ReplayStub(recorded)
+    npx = NPProxy()
+
+    class _NPR:
+        def binomial(self, n, p, size=None):
+            return stub._next('binomial')[3]
+
+        def __getattr__(self, name):
+            from vlib.stubs import UnmodelledRandomness
+            raise UnmodelledRandomness('numpy.random.' + name)
+    npx.random = _NPR()
+    install_sim(stub, npx)
+    if any(e[0] == 'truncexp' for e in recorded):
+        sim._truncated_exponential_ = lambda rate, T: stub._next('truncexp')[3]
+    return stub
+
+
 def struct_eq(a, b):
     """conjunction of equalities between two result structures (mode-aware)"""
     if isinstance(a, dict) and isinstance(b, dict):
@@ -248,8 +267,7 @@ def run_wrapper(h, cfg):
     simobl.initial_state(h, r, o)
     a = simruns.result_struct(o, r.nodes)
     log0 = [e for e in symx.ENG.log if e[0] in DRAWS]
-    from vlib.stubs import install_sim, NPProxy
-    install_sim(ReplayStub(log0), NPProxy())
+    install_replay(log0)
     kw = dict(tmin=r.tmin, tmax=r.tmax, return_full_data=cfg.get('full', False), initial_infecteds=list(r.I0))
     if r.R0:
         kw['initial_recovereds'] = list(r.R0)
